@@ -17,7 +17,7 @@ def trefOf (j : Json) : TRef :=
 
 def memberOf (j : Json) : Member :=
   ⟨jstr j "name", trefOf (jget j "type"), jnat j "min", jbool j "unbounded", jbool j "nillable",
-   jbool j "qualified", jbool j "inChoice"⟩
+   jbool j "qualified", jbool j "inChoice", asNat? (jget j "refNs")⟩
 
 def attrOf (j : Json) : AttrDecl := ⟨jstr j "name", jstr j "type", jbool j "required", jstr? j "default"⟩
 
